@@ -98,7 +98,7 @@ Definition cp_eqb (a b : chanprop) : bool :=
   let '(a1, a2, a3) := a in let '(b1, b2, b3) := b in
   str_eqb a1 b1 && str_eqb a2 b2 && str_eqb a3 b3.
 
-(* Inbound.ToFMQMap on the task's local bind map; None = error (the caller skips the channel) *)
+(* Inbound.ToFMQMap on the task's local bind map; None = error (fails the configuration) *)
 Definition inbound_props (local : bindmap) (i : inbound) : option chanprop :=
   if is_explicit (i_target i) then Some (i_target i, m_bind, i_tr i)
   else if nonempty (i_target i) then None
@@ -148,10 +148,13 @@ Definition alias_key (g : str) : str := s_alias ++ g.
 Definition mk_ep (c : inbound) (a : N * str) : endpoint :=
   if i_ipc c then Ipc (snd a) (i_tr c) else Tcp s_star (fst a) (i_tr c).
 
+(* a channel with a target of its own (static bind address) is neither allocated nor registered *)
 Definition local_step (c : inbound) (a : N * str) (m : bindmap) : bindmap :=
-  let ep := mk_ep c a in
-  let m1 := bm_set (i_name c) ep m in
-  if nonempty (i_global c) then bm_set (alias_key (i_global c)) ep m1 else m1.
+  if nonempty (i_target c) then m
+  else
+    let ep := mk_ep c a in
+    let m1 := bm_set (i_name c) ep m in
+    if nonempty (i_global c) then bm_set (alias_key (i_global c)) ep m1 else m1.
 
 (* channel number k (from 0) of the merged list receives allocation [al k] *)
 Fixpoint local_from (chs : list inbound) (k : nat) (al : nat -> N * str) (m : bindmap) : bindmap :=
@@ -189,13 +192,18 @@ Fixpoint env_add (path host : str) (entries : bindmap) (bm : bindmap) : option b
     else env_add path host r (bm_set (path ++ s_colon ++ n) (to_target host ep) bm)
   end.
 
+(* two inbound channels of one task claiming one global alias: "illegal redefinition" *)
+Definition globals_of (chs : list inbound) : list str := filter nonempty (map i_global chs).
+Definition alias_dup (chs : list inbound) : bool := negb (nodupb str_eqb (globals_of chs)).
+
 Fixpoint env_from (tasks : list task) (bm : bindmap) : option bindmap :=
   match tasks with
   | [] => Some bm
-  | t :: r => match env_add (t_path t) (t_host t) (t_local t) bm with
-              | None => None
-              | Some bm' => env_from r bm'
-              end
+  | t :: r => if alias_dup (t_in t) then None
+              else match env_add (t_path t) (t_host t) (t_local t) bm with
+                   | None => None
+                   | Some bm' => env_from r bm'
+                   end
   end.
 Definition env_bindmap (tasks : list task) : option bindmap := env_from tasks [].
 
@@ -207,11 +215,17 @@ Definition given (n : str) (pr : props) : option chanprop := assoc n (rev pr).
 
 Definition is_some {A} (o : option A) : bool := match o with Some _ => true | None => false end.
 
-Definition in_writes (local : bindmap) (ins : list inbound) : props :=
-  flat_map (fun i => match inbound_props local i with
-                     | Some p => [(i_name i, p)]
-                     | None => []            (* error logged, channel skipped *)
-                     end) ins.
+Fixpoint in_writes (local : bindmap) (ins : list inbound) : option props :=
+  match ins with
+  | [] => Some []
+  | i :: r => match inbound_props local i with
+              | None => None                 (* "channel generation failed" *)
+              | Some p => match in_writes local r with
+                          | None => None
+                          | Some w => Some ((i_name i, p) :: w)
+                          end
+              end
+  end.
 
 Fixpoint out_writes (bm : bindmap) (outs : list outbound) : option props :=
   match outs with
@@ -227,9 +241,12 @@ Fixpoint out_writes (bm : bindmap) (outs : list outbound) : option props :=
 
 Definition task_props (bm : bindmap) (t : task) : option props :=
   if t_chans t then
-    match out_writes bm (t_out t) with
+    match in_writes (t_local t) (t_in t) with
     | None => None
-    | Some w => Some (in_writes (t_local t) (t_in t) ++ w)
+    | Some wi => match out_writes bm (t_out t) with
+                 | None => None
+                 | Some w => Some (wi ++ w)
+                 end
     end
   else Some [].
 
@@ -393,10 +410,14 @@ Definition w_clean (w : wtask) : bool :=
 
 Definition invalid_target (t : str) : bool := nonempty t && negb (is_explicit t).
 
-(* does target [tgt] name channel [e] of the task with path [p]? *)
-Definition target_hits (tgt p : str) (e : inbound) : bool :=
+(* does target [tgt] spell channel [e] of the task with path [p]?  ([target_names]: by its
+   declaration; [target_hits]: and the channel takes part in matching, i.e. has no target of
+   its own) *)
+Definition target_names (tgt p : str) (e : inbound) : bool :=
   str_eqb tgt (p ++ s_colon ++ i_name e) ||
   (nonempty (i_global e) && str_eqb tgt (alias_key (i_global e))).
+Definition target_hits (tgt p : str) (e : inbound) : bool :=
+  negb (nonempty (i_target e)) && target_names tgt p e.
 
 (* all ((task index, ports requested for the task in ACCEPT), task, told, effective inbound
    channel) *)
@@ -431,20 +452,17 @@ Definition good_hit (addr tr : str) (b : binder) : bool :=
     end
   else alloc_addr_ok (w_host w) pt e addr tr.
 
-(* recorded defect classes: the peer was sent to the allocation of a channel that was told
-   its own explicit target (5) / that was told nothing because its target is invalid (6) *)
+(* regressions of repaired defects: the peer was sent to an allocation made for a channel that
+   is told its own explicit target (5) / whose target is invalid (6) *)
 Definition known_hit (cls : N) (addr tr : str) (b : binder) : bool :=
   let '((_, pt), w, _, e) := b in
-  w_chans w && alloc_addr_ok (w_host w) pt e addr tr &&
+  alloc_addr_ok (w_host w) pt e addr tr &&
   (if cls =? 5 then is_explicit (i_target e) else invalid_target (i_target e)).
-
-Definition classify_hits (addr tr : str) (hits : list binder) : N :=
-  if existsb (known_hit 5 addr tr) hits then 5
-  else if existsb (known_hit 6 addr tr) hits then 6
-  else 1.
 
 Definition hits_of (bs : list binder) (d : outbound) : list binder :=
   filter (fun b : binder => let '(_, w, _, e) := b in target_hits (o_target d) (w_path w) e) bs.
+Definition named_by (bs : list binder) (d : outbound) : list binder :=
+  filter (fun b : binder => let '(_, w, _, e) := b in target_names (o_target d) (w_path w) e) bs.
 
 Definition check_out (bs : list binder) (pr : props) (d : outbound) : N :=
   match assoc (o_name d) pr with
@@ -453,11 +471,10 @@ Definition check_out (bs : list binder) (pr : props) (d : outbound) : N :=
     if negb (str_eqb meth m_connect) then 2
     else if is_explicit (o_target d) then
       (if str_eqb addr (o_target d) && str_eqb tr (o_tr d) then 0 else 3)
-    else
-      match hits_of bs d with
-      | [] => 4
-      | h :: r => if existsb (good_hit addr tr) (h :: r) then 0 else classify_hits addr tr (h :: r)
-      end
+    else if existsb (good_hit addr tr) (hits_of bs d) then 0
+    else if existsb (known_hit 5 addr tr) (named_by bs d) then 5
+    else if existsb (known_hit 6 addr tr) (named_by bs d) then 6
+    else if nonempty (hits_of bs d) then 1 else 4
   end.
 
 Definition check_in (ports : list N) (pr : props) (e : inbound) : N :=
@@ -479,7 +496,8 @@ Definition check_in (ports : list N) (pr : props) (e : inbound) : N :=
          end
   end.
 
-(* two different channels claiming one alias: 8 = in different tasks, 9 = within one task *)
+(* two different channels claiming one alias: 9 = within one task (any two declarations),
+   8 = in different tasks (channels that take part in matching) *)
 Fixpoint alias_codes (bs : list binder) : list N :=
   match bs with
   | [] => []
@@ -487,17 +505,22 @@ Fixpoint alias_codes (bs : list binder) : list N :=
     (if nonempty (i_global e) then
        flat_map (fun b : binder => let '((k', _), _, _, e') := b in
                           if str_eqb (i_global e) (i_global e')
-                          then [if k =? k' then 9 else 8] else []) r
+                          then (if k =? k' then [9]
+                                else if nonempty (i_target e) || nonempty (i_target e') then [] else [8])
+                          else []) r
      else []) ++ alias_codes r
   end.
 
-Definition known_class (c : N) : bool := memN c [5; 6; 9].
-(* a code outside the recorded defect classes wins *)
+(* the first violation *)
 Definition pick (codes : list N) : N :=
-  match filter (fun c => negb (c =? 0) && negb (known_class c)) codes with
-  | c :: _ => c
-  | [] => match filter (fun c => negb (c =? 0)) codes with c :: _ => c | [] => 0 end
-  end.
+  match filter (fun c => negb (c =? 0)) codes with c :: _ => c | [] => 0 end.
+
+(* a channel with a target of its own must not be allocated / registered at launch *)
+Definition advertised_codes (ws : list wtask) (locals : list bindmap) : list N :=
+  flat_map (fun x : wtask * bindmap =>
+              map (fun e => if nonempty (i_target e) && is_some (assoc (i_name e) (snd x)) then 5 else 0)
+                  (eff_in (fst x)))
+           (combine ws locals).
 
 Definition mon_env (ws : list wtask) (obs : option (list (bindmap * props))) (ports : list (list N)) : N :=
   if negb (forallb w_clean ws) then 0
@@ -515,10 +538,10 @@ Definition mon_env (ws : list wtask) (obs : option (list (bindmap * props))) (po
                         then map (check_out bs pr) (eff_out w) ++ map (check_in pt pr) (eff_in w)
                         else [])
                      wpp in
-        pick (per_task ++ alias_codes bs)
+        pick (per_task ++ alias_codes bs ++ advertised_codes ws (map fst os))
     | None =>
-      (* the configuration failed: it must be because of an unmatched target or an alias
-         claimed by channels of two tasks *)
+      (* the configuration failed: it must be because of an unmatched target, an inbound
+         channel with an invalid target, or an alias claimed twice *)
       let bs := binders_from 0 (map (fun w => (w, [], [])) ws) in
       let unmatched :=
           existsb (fun w => w_chans w &&
@@ -526,7 +549,9 @@ Definition mon_env (ws : list wtask) (obs : option (list (bindmap * props))) (po
                                               negb (existsb (fun b : binder => let '(_, w', _, e) := b in
                                                                       target_hits (o_target d) (w_path w') e) bs))
                                     (eff_out w)) ws in
-      if unmatched || existsb (N.eqb 8) (alias_codes bs) then 0 else 12
+      let invalid_in :=
+          existsb (fun w => w_chans w && existsb (fun e => invalid_target (i_target e)) (eff_in w)) ws in
+      if unmatched || invalid_in || nonempty (alias_codes bs) then 0 else 12
     end.
 
 Definition key_in (k : str) (bm : bindmap) : bool := is_some (assoc k bm).
